@@ -15,7 +15,8 @@ META = {
         'through sorted keys. R2: no serialiser function (all of Serializable, the text encoders, every _asdict/_as_markdown/'
         'as_json/as_markdown/__str__ override) stores to an attribute of a class object or declares a global. R3 total dispatch: _json_result/_json_traverse/_markdown_result end in an '
         'unconditional default branch, the JSONEncoder.default hook is installed at import time and dictionary keys are '
-        'mapped to str/number on every branch. R4: every _asdict override returns a value on every path.'),
+        'mapped to str/number on every branch. R4: every _asdict override returns a value on every path.'
+        ' R2 is now: no serialiser function stores to class-level or module-level state. R5: format templates are literals. R6: foreign value types are rendered as text before the generic __dict__ branch; no mapping built from repeated keys; a time delta is rendered whole.'),
     'assumptions': ['json.dumps calls JSONEncoder.default for objects it cannot serialise natively'],
     'trusted_base': ['python ast', 'sa.interp (R2 effects, set typed attributes)'],
     'exhaustive': True,
